@@ -114,13 +114,16 @@ func execRun(e *Engine, tier string, seed uint64, index int, plan, sched []uint3
 	// counted; each property is reported by its own check.
 	var keep []Finding
 	for _, f := range rc.Findings {
-		own := f.Prop == e.ID
+		own := f.Prop == e.ID || os.Getenv("VERIF_ALL") != ""
 		for _, o := range e.Owns {
 			if o == f.Prop {
 				own = true
 			}
 		}
 		if own {
+			if os.Getenv("VERIF_ALL") != "" && f.Prop != e.ID {
+				f.Key = f.Prop + "!" + f.Key
+			}
 			f.Prop = e.ID
 			keep = append(keep, f)
 		} else {
